@@ -339,13 +339,15 @@ Definition wire_charstr (a : bytes) : bytes := N.of_nat (length a) :: a.
                   lower-cased (RFC 4034 6.2)
      FNameRaw n   a name compared with composed_cmp, encoded as is (NSEC)
      FStr s       a <character-string>: length octet then content
-     FTail t      final variable-length octets *)
+     FTail t      final variable-length octets
+     FStr16 s     octets preceded by a 16 bit length, compared length first *)
 Inductive field :=
 | FFixed (e : bytes)
 | FName (n : name)
 | FNameRaw (n : name)
 | FStr (s : bytes)
-| FTail (t : bytes).
+| FTail (t : bytes)
+| FStr16 (s : bytes).   (* octets preceded by a 16 bit length (TSIG MAC, other data) *)
 
 Definition field_enc (f : field) : bytes :=
   match f with
@@ -354,6 +356,7 @@ Definition field_enc (f : field) : bytes :=
   | FNameRaw n => wire_abs n
   | FStr s => wire_charstr s
   | FTail t => t
+  | FStr16 s => be16 (N.of_nat (length s)) ++ s
   end.
 
 (* the comparison the code performs on one field; names are compared by the
@@ -377,6 +380,7 @@ Definition field_cmp (f g : field) : outcome comparison :=
   | FNameRaw a, FNameRaw b => labels_composed m_label_composed_cmp (a ++ [[]]) (b ++ [[]])
   | FStr a, FStr b => Ok (m_charstr_canonical_cmp a b)
   | FTail a, FTail b => Ok (lex_cmp a b)
+  | FStr16 a, FStr16 b => Ok (then_cmp (len_cmp a b) (lex_cmp a b))
   | _, _ => Panic P_UNREACHABLE
   end.
 
@@ -404,6 +408,7 @@ Definition same_kind (f g : field) : bool :=
   | FNameRaw _, FNameRaw _ => true
   | FStr _, FStr _ => true
   | FTail _, FTail _ => true
+  | FStr16 _, FStr16 _ => true
   | _, _ => false
   end.
 Definition tail_last (f : field) (rest : list field) : bool :=
@@ -424,6 +429,7 @@ Definition field_ok (f : field) : Prop :=
   | FNameRaw n => valid_abs n
   | FStr s => (length s <= 255)%nat
   | FTail t => True
+  | FStr16 s => N.of_nat (length s) <= 65535
   end.
 
 (* NSEC as coded: next_name.composed_cmp, then `self.types.cmp(&X.types)`
@@ -544,7 +550,121 @@ Fixpoint chain_cmp (fs : list N) (a b : crec) : comparison :=
   end.
 Definition m_record_canonical_cmp := chain_cmp record_canonical_fields.
 
+(* RecordHeader<N>: Eq / Ord over header_eq_fields / header_cmp_fields
+   (owner=1 with name_eq / name_cmp, rtype=5, class=2, ttl=3, rdlen=6) *)
+Record hdr := mkHdr { h_owner : name; h_rtype : N; h_class : N; h_ttl : N; h_rdlen : N }.
+Definition hdr_num (f : N) (h : hdr) : N :=
+  if f =? 2 then h_class h else if f =? 3 then h_ttl h else if f =? 5 then h_rtype h else h_rdlen h.
+Definition hdr_field_cmp (f : N) (a b : hdr) : comparison :=
+  if f =? 1 then name_cmp (h_owner a) (h_owner b) else hdr_num f a ?= hdr_num f b.
+Definition hdr_field_eq (f : N) (a b : hdr) : bool :=
+  if f =? 1 then name_eqb (h_owner a) (h_owner b) else hdr_num f a =? hdr_num f b.
+Fixpoint hdr_chain (fs : list N) (a b : hdr) : comparison :=
+  match fs with
+  | [] => Eq
+  | f :: fs' => then_cmp (hdr_field_cmp f a b) (hdr_chain fs' a b)
+  end.
+Definition m_header_cmp := hdr_chain header_cmp_fields.
+Definition m_header_eqb (a b : hdr) : bool := forallb (fun f => hdr_field_eq f a b) header_eq_fields.
+(* ParsedRecord ==: the headers and the raw RDATA octets *)
+Definition m_parsed_record_eq (a : hdr) (da : bytes) (b : hdr) (db : bytes) : bool :=
+  m_header_eqb a b && bytes_eqb da db.
+
+(* ----------------------------------------- typed record data values (T1 table)
+
+   rd_table (C04/Gen.v) lists, for each record type read from the source, the
+   kinds of its struct fields and the field lists (indices in declaration
+   order) of its PartialEq, Ord, CanonicalOrd and Hash impls.  A value of such
+   a type is the list of its field values; ==, canonical_cmp and the Hash feed
+   are generic in the table.
+   kinds: 1 u8, 2 u16, 3 u32 (and integer newtypes of that width), 4 name
+   lower-cased in canonical form, 5 name kept as is, 6 CharStr, 7 octets,
+   8 octets carrying a length octet in wire form, 9 type bitmap octets.
+   What a Hasher receives is a list of tokens: write_u8 / write_u16 /
+   write_u32 / write_usize calls and raw `write` calls. *)
+Inductive tok := TB (v : N) | TW (v : N) | TD (v : N) | TN (v : N) | TR (b : bytes).
+
+Inductive fval :=
+| VU8 (v : N) | VU16 (v : N) | VU32 (v : N)
+| VNameLc (n : name) | VNameRaw (n : name)
+| VStr (s : bytes) | VOcts (t : bytes) | VPfx (s : bytes) | VBitmap (t : bytes).
+
+Definition fv_kind (v : fval) : N :=
+  match v with
+  | VU8 _ => 1 | VU16 _ => 2 | VU32 _ => 3 | VNameLc _ => 4 | VNameRaw _ => 5
+  | VStr _ => 6 | VOcts _ => 7 | VPfx _ => 8 | VBitmap _ => 9
+  end.
+
+(* the canonical schema field of a value *)
+Definition fv_field (v : fval) : field :=
+  match v with
+  | VU8 x => FFixed [x] | VU16 x => FFixed (be16 x) | VU32 x => FFixed (be32 x)
+  | VNameLc n => FName n | VNameRaw n => FNameRaw n
+  | VStr s => FStr s | VPfx s => FStr s
+  | VOcts t => FTail t | VBitmap t => FTail t
+  end.
+
+(* ==: integers, name_eq, CharStr ==, octets *)
+Definition fv_eq (a b : fval) : bool :=
+  match a, b with
+  | VU8 x, VU8 y | VU16 x, VU16 y | VU32 x, VU32 y => x =? y
+  | VNameLc x, VNameLc y | VNameRaw x, VNameRaw y => name_eqb x y
+  | VStr x, VStr y => m_charstr_eq x y
+  | VOcts x, VOcts y | VPfx x, VPfx y | VBitmap x, VBitmap y => bytes_eqb x y
+  | _, _ => false
+  end.
+
+(* Hash: integers by their width, names label by label (Label::hash), CharStr
+   its lower-cased octets one by one, octets as a slice (length, then data) *)
+Definition fv_hash (v : fval) : list tok :=
+  match v with
+  | VU8 x => [TB x] | VU16 x => [TW x] | VU32 x => [TD x]
+  | VNameLc n | VNameRaw n => map TB (name_hash_feed n)
+  | VStr s => map TB (m_charstr_hash s)
+  | VOcts t | VPfx t | VBitmap t => [TN (N.of_nat (length t)); TR t]
+  end.
+
+Definition pick (idx : list N) (vs : list fval) : list fval :=
+  flat_map (fun i => match nth_error vs (N.to_nat i) with Some v => [v] | None => [] end) idx.
+
+Fixpoint all2 (f : fval -> fval -> bool) (a b : list fval) : bool :=
+  match a, b with
+  | [], [] => true
+  | x :: a', y :: b' => f x y && all2 f a' b'
+  | _, _ => false
+  end.
+
+Definition rd_eq (e : list N) (a b : list fval) : bool := all2 fv_eq (pick e a) (pick e b).
+(* ZoneRecordData::hash: the type, then the data *)
+Definition rd_hash (rtype : N) (h : list N) (a : list fval) : list tok :=
+  TW rtype :: flat_map fv_hash (pick h a).
+Definition rd_canonical_cmp (cc : list N) (a b : list fval) : outcome comparison :=
+  fields_cmp (map fv_field (pick cc a)) (map fv_field (pick cc b)).
+Definition rd_enc (a : list fval) : bytes := fields_enc (map fv_field a).
+
+Definition rd_row := (list N * (list N * list N * list N * list N))%type.
+Fixpoint rd_lookup (t : list (N * rd_row)) (code : N) : option rd_row :=
+  match t with
+  | [] => None
+  | (c, r) :: t' => if c =? code then Some r else rd_lookup t' code
+  end.
+Definition row_kinds (r : rd_row) : list N := fst r.
+Definition row_eq (r : rd_row) : list N := let '(_, (e, _, _, _)) := r in e.
+Definition row_cmp (r : rd_row) : list N := let '(_, (_, c, _, _)) := r in c.
+Definition row_canonical (r : rd_row) : list N := let '(_, (_, _, cc, _)) := r in cc.
+Definition row_hash (r : rd_row) : list N := let '(_, (_, _, _, h)) := r in h.
+
 (* ------------------------------------------- entry points for the T2 driver *)
+Definition c04_header_cmp := m_header_cmp.
+Definition c04_header_eq := m_header_eqb.
+Definition c04_rd_kinds (code : N) : list N :=
+  match rd_lookup rd_table code with Some r => row_kinds r | None => [] end.
+Definition c04_rd_eq (code : N) (a b : list fval) : option bool :=
+  match rd_lookup rd_table code with Some r => Some (rd_eq (row_eq r) a b) | None => None end.
+Definition c04_rd_hash (code : N) (a : list fval) : list tok :=
+  match rd_lookup rd_table code with Some r => rd_hash code (row_hash r) a | None => [] end.
+Definition c04_rd_ccmp (code : N) (a b : list fval) : outcome comparison :=
+  match rd_lookup rd_table code with Some r => rd_canonical_cmp (row_canonical r) a b | None => Err 0 end.
 Definition c04_lower (b : N) : N := lower b.
 Definition c04_label_eq := m_label_eq.
 Definition c04_label_cmp := m_label_cmp.
